@@ -18,6 +18,7 @@ from .commons import (
     dump_xml_meta_odm,
     DATE_FMT_DEFAULT,
     get_format,
+    Field,
 )
 
 
@@ -194,7 +195,10 @@ def _loads_xml(string):
 
     ud_dict = data["body"]["segment"]["data"].get("userDefinedParameters", {})
 
-    for field in ud_dict.get("USER_DEFINED", []):
+    ud_fields = ud_dict.get("USER_DEFINED", [])
+    if isinstance(ud_fields, Field):
+        ud_fields = [ud_fields]
+    for field in ud_fields:
         ud = orb._data.setdefault("ccsds_user_defined", {})
         ud[field.attrib["parameter"]] = field.text
 
@@ -334,7 +338,7 @@ def _dumps_xml(data, **kwargs):
                 x = ET.SubElement(cov, f"C{a}_{b}")
                 x.text = f"{data.cov[i, j] / 1000000.0:0.12e}"
 
-    if "ccsds_user_defined" in data._data:
+    if data._data.get("ccsds_user_defined"):
         ud = ET.SubElement(data_tag, "userDefinedParameters")
         for k, v in data._data["ccsds_user_defined"].items():
             el = ET.SubElement(ud, "USER_DEFINED", parameter=k)
